@@ -334,58 +334,6 @@ def main_selectors(ctx):
                           dict(kind='main', blt=text, options=cmd))
 
 
-def main_reused_dict(ctx):
-    """
-    a driver may keep one options dict and only replace `path` between calls of Droop.main: what an earlier call found (or
-    defaulted) must not stay behind in the caller's layer - each call must come out as it does with a fresh dict
-    """
-    import os, io, tempfile, contextlib, importlib.util
-    from ..harness import REPO
-    if ctx.shard >= 6:
-        return
-    spec = importlib.util.spec_from_file_location('Droop_cli_c17b', os.path.join(REPO, 'Droop.py'))
-    cli = importlib.util.module_from_spec(spec)
-    spec.loader.exec_module(cli)
-    out = os.path.join(os.path.dirname(os.path.dirname(os.path.dirname(os.path.abspath(__file__)))), 'out')
-    rng = ctx.case_rng(-17)
-    variants = ['', '[droop rule=scotland]', '[droop rule=wigm arithmetic=fixed precision=3]', '[droop meek omega=4]', '[droop rule=wigm-prf dump]',
-                '[droop rule=mpls]', '[droop warren arithmetic=fixed precision=5 json]', '[droop rule=qpq]']
-    paths = []
-    try:
-        for v in variants:
-            fd, path = tempfile.mkstemp(suffix='.blt', dir=out)
-            with os.fdopen(fd, 'w') as f:
-                f.write(PROFILE % v)
-            paths.append(path)
-
-        def run(d):
-            with contextlib.redirect_stdout(io.StringIO()):
-                try:
-                    return ('ok', cli.main(d))
-                except Exception as e:      # pylint: disable=broad-except
-                    return ('raised', type(e).__name__)
-        for _ in range(6):
-            base_extra = dict(rng.choice([{}, {}, dict(dump=True), dict(display=3)]))
-            shared = dict(base_extra)
-            seq = [rng.randrange(len(variants)) for _ in range(rng.randint(3, 6))]
-            for n, k in enumerate(seq):
-                shared['path'] = paths[k]
-                got = run(shared)
-                fresh = run(dict(base_extra, path=paths[k]))
-                ctx.count('main_calls_with_a_reused_options_dict')
-                ctx.evaluated()
-                if got != fresh:
-                    ctx.violation('main-depends-on-earlier-calls-with-the-same-dict',
-                                  'Droop.main on %r after the calls %r with one reused options dict: %s; with a fresh dict: %s'
-                                  % (variants[k], [variants[j] for j in seq[:n]], got[0] if got[0] == 'raised' else (got[1][:160]),
-                                     fresh[0] + ' ' + (fresh[1][:160])), dict(kind='main-reuse', sequence=[variants[j] for j in seq[:n + 1]], extra=base_extra))
-                    break
-    finally:
-        for path in paths:
-            if os.path.exists(path):
-                os.unlink(path)
-
-
 def all_assignments():
     out = []
     for rule in configs.ALL_RULES:
@@ -415,7 +363,6 @@ def shard(ctx):
                 check_assignment(ctx, rule, name, fv, cv, base, as_object=True)
     ctx.count('assignment_enumeration_complete_shards')
     main_selectors(ctx)
-    main_reused_dict(ctx)
     n_min = 20 if ctx.quick else 300
     for i, rng in ctx.cases(n_min, 10 ** 9):
         immunity(ctx, rng)
@@ -434,9 +381,8 @@ def replay(case):
             raw = m.group(1)
             fv = True if raw == 'true' else False if raw == 'no' else (int(raw) if raw.isdigit() else raw)
         check_assignment(ctx, case['rule'], name, fv, cv, case.get('base'))
-    elif case['kind'] in ('main', 'main-reuse'):
+    elif case['kind'] == 'main':
         main_selectors(ctx)
-        main_reused_dict(ctx)
     else:
         r0 = do_count(case['blt'], dict(rule=case['rule']), budget=60, render=True)
         r1 = do_count(case['blt2'], case['options'], budget=60, render=True)
